@@ -67,7 +67,7 @@ PROPS["C14"] = {
     "groups": [
         {"id": "wellformed",
          "quick": ["c14::c14_from_str_3", "c14::c14_from_string_3", "c14::c14_from_bytes_3", "c14::c14_clone_2", "c14::c14_clone_from_2", "c14::c14_eq_hash_str_2",
-                   "c14::c14_eq_hash_mixed_2", "c14::c14_cstr_borrowed_4", "c14::c14_cstr_borrowed_5", "c14::c14_cstr_borrowed_6",
+                   "c14::c14_eq_hash_mixed_2", "c14::c14_cstr_borrowed_4", "c14::c14_cstr_borrowed_5", "c14::c14_cstr_borrowed_6", "c14::c14_display_produces_the_text",
                    "c14::c14_negative_twin"],
          "thorough_adds": ["c14::c14_from_str_4", "c14::c14_from_string_4", "c14::c14_from_bytes_4", "c14::c14_clone_3", "c14::c14_clone_from_3",
                            "c14::c14_eq_hash_str_3", "c14::c14_eq_hash_mixed_3"],
@@ -209,7 +209,9 @@ PROPS["C11"] = {
         {"id": "step", "quick": _c11(_C11["step_q"]) + _c11(_C11["misc"]) + _OOB + ["c11::c11_negative_twin"] +
          # "its buffer is always grown and freed through the functions stored in it": a vector fabricated with foreign
          # reserve/drop functions over non-heap memory (shared with C05)
-         ["c05::c05_foreign_cvec_i0", "c05::c05_foreign_cvec_i1", "c05::c05_foreign_cvec_i2"],
+         ["c05::c05_foreign_cvec_i0", "c05::c05_foreign_cvec_i1", "c05::c05_foreign_cvec_i2"] +
+         # zero-sized elements with a destructor; clone_from (whatever its implementation)
+         ["c11x::c11x_zero_sized_elements_with_destructor", "c11x::c11x_clone_from_drops_the_surplus"],
          "thorough_adds": _c11(_C11["step_t"]), "timeout": 1800, "mem_gb": 10, "cbmc_args": LEAK},
         {"id": "seq", "quick": _c11(_C11["seq2_q"]), "thorough_adds": _c11(_C11["seq2_t"]) + _c11(_C11["seq3_t"]),
          "timeout": 1800, "mem_gb": 10},
@@ -415,7 +417,7 @@ PROPS["C02"] = {
     "crate": "gen",
     "groups": [
         {"id": "shapes",
-         "quick": ["c02::c02_args_slices", "c02::c02_args_mutable", "c02::c02_args_values", "c02::c02_args_callback_iterator", "c02::c02_iterator_argument_not_fused", "c02::c02_strings_multibyte",
+         "quick": ["c02::c02_args_slices", "c02::c02_args_mutable", "c02::c02_args_values", "c02::c02_args_callback_iterator", "c02::c02_iterator_argument_not_fused", "c02::c02_strings_multibyte", "c02::c02_optional_slice_and_str_arguments",
                    "c02::c02_returns", "c02::c02_boxed_object", "c02::c02_npo_options", "c02::c02_narrow_options_and_zst_mut_slices", "c02::c02_negative_twin",
                    # integer-coded results with an io::Error payload (every i32 OS code) - shared with C13
                    "c13e::c13e_io_codes", "c13e::c13e_roundtrip", "c13e::c13e_payload_shapes",
@@ -423,7 +425,7 @@ PROPS["C02"] = {
          "timeout": 1800},
         {"id": "corpus", "crate": "gencorp", "quick": _gc_subset(1), "thorough": list(_GC), "timeout": 900},
         # an iterator passed on by reference is still the caller's iterator afterwards: nothing beyond what was offered is taken
-        {"id": "feed", "crate": "rt", "quick": ["c15::c15_feed_borrowed_source_takes_only_what_it_offers", "c15::c15_extend_closure_4",
+        {"id": "feed", "crate": "rt", "quick": ["c15::c15_feed_borrowed_source_takes_only_what_it_offers", "c15::c15_extend_closure_4", "c15::c15_collect_vec_3",
                                                 "c12::c12_zst_slices_of_any_length"], "timeout": 900},
     ],
     "negative": ["c02::c02_negative_twin"],
@@ -542,6 +544,7 @@ PROPS["C08"] = {
                    "c08::c08_owned_list_of_four_argument_registration",
                    "c08x::c08x_mandatory_and_optional_word_order", "c08x::c08x_casts_dispatch_to_the_right_trait",
                    "c08x::c08x_external_and_local_traits_in_one_list", "c08x::c08x_group_without_mandatory_traits",
+                   "c_r7::r7_partial_aliased_instantiations",
                    "c08::c08_negative_twin"],
          "thorough_adds": ["c08::c08_g4_box", "c08::c08_g4_mut"],
          "timeout": 3000},
